@@ -797,6 +797,74 @@ theorem stripAnsi_render (d : DCell) : stripAnsi d.render = d.uncolour.render :=
   rw [stripAnsi_wrap _ _ (text_no_esc d)]
   rfl
 
+/-! ### powers of two are exact -/
+
+theorem ilog2_mul_zpow {q : ℚ} (h : q ≠ 0) (k : ℤ) : ilog2 (q * (2:ℚ)^k) = ilog2 q + k := by
+  obtain ⟨s1, s2⟩ := ilog2_spec h
+  have hp := two_zpow_pos k
+  apply ilog2_unique
+  · rw [abs_mul, abs_of_pos hp, zpow_add₀ (by norm_num : (2:ℚ) ≠ 0)]
+    exact mul_le_mul_of_nonneg_right s1 (le_of_lt hp)
+  · rw [abs_mul, abs_of_pos hp, show ilog2 q + k + 1 = (ilog2 q + 1) + k by ring, zpow_add₀ (by norm_num : (2:ℚ) ≠ 0)]
+    exact mul_lt_mul_of_pos_right s2 hp
+
+/-- scaling by a power of two commutes with rounding (no underflow / overflow in the model) -/
+theorem fl_mul_zpow (q : ℚ) (k : ℤ) : fl (q * (2:ℚ)^k) = fl q * (2:ℚ)^k := by
+  by_cases h : q = 0
+  · subst h; simp [fl_zero]
+  · have hp := two_zpow_pos k
+    have h' : q * (2:ℚ)^k ≠ 0 := mul_ne_zero h (ne_of_gt hp)
+    rw [fl_eq h', fl_eq h, ilog2_mul_zpow h k]
+    have e : ilog2 q + k - 52 = (ilog2 q - 52) + k := by ring
+    rw [e, zpow_add₀ (by norm_num : (2:ℚ) ≠ 0)]
+    have : q * (2:ℚ)^k / ((2:ℚ)^(ilog2 q - 52) * (2:ℚ)^k) = q / (2:ℚ)^(ilog2 q - 52) := by
+      field_simp
+    rw [this]; ring
+
+theorem fl_div_1024 (q : ℚ) : fl (q / 1024) = fl q / 1024 := by
+  have : (1024 : ℚ) = (2:ℚ)^(10:ℤ) := by norm_num
+  rw [this, div_eq_mul_inv, ← zpow_neg, fl_mul_zpow, zpow_neg, ← div_eq_mul_inv]
+
+/-- a value that is a double (true of every Python float; of an int iff it converts to float exactly) -/
+def Val.dbl (v : Val) : Prop := fl v.toSM.mag = v.toSM.mag
+
+theorem divK_1024_rat {v : Val} (hd : v.dbl) : (v.divK 1024).dbl ∧ (v.divK 1024).toSM.val = v.toSM.val / 1024 := by
+  have hs : (v.divK 1024).toSM = ⟨v.toSM.neg, fl (v.toSM.mag / 1024)⟩ := rfl
+  unfold Val.dbl at hd ⊢
+  rw [hs]
+  generalize v.toSM = x at hd
+  have e : fl (x.mag / 1024) = x.mag / 1024 := by rw [fl_div_1024, hd]
+  constructor
+  · show fl (fl (x.mag / 1024)) = fl (x.mag / 1024)
+    rw [e, e]
+  · rw [SM.val_mk, e]
+    unfold SM.val
+    split_ifs <;> ring
+
+theorem Fmt_bytes_exact_aux {v : Val} (hd : v.dbl) :
+    (Fmt.bytesToGb.apply v).toSM.val * 1073741824 = v.toSM.val ∧
+    (Fmt.bytesToMb.apply v).toSM.val * 1048576 = v.toSM.val ∧
+    (Fmt.bytesToKb.apply v).toSM.val * 1024 = v.toSM.val := by
+  have h1 := divK_1024_rat hd
+  have h2 := divK_1024_rat h1.1
+  have h3 := divK_1024_rat h2.1
+  have hz : v.truthy = false → v.toSM.val = 0 := by
+    intro hf
+    cases v with
+    | int i => simp [Val.truthy] at hf; subst hf; simp [Val.toSM, SM.val, fl_zero]
+    | flt x => simp [Val.truthy] at hf; simp [Val.toSM, SM.val, hf]
+  refine ⟨?_, ?_, ?_⟩ <;> simp only [Fmt.apply] <;> split_ifs with ht
+  · rw [h3.2, h2.2, h1.2]; ring
+  · rw [hz (by simpa using ht)]; ring
+  · rw [h2.2, h1.2]; ring
+  · rw [hz (by simpa using ht)]; ring
+  · rw [h1.2]; ring
+  · rw [hz (by simpa using ht)]; ring
+
+theorem rat_of_flt_apply (f : Fmt) (hf : f ≠ .ident) (v : Val) (ht : v.truthy = true) :
+    (f.apply v).rat = (f.apply v).toSM.val := by
+  cases f <;> simp_all [Fmt.apply, Val.divK, Val.mulK, Val.rat, Val.toSM]
+
 /-! ### helper lemmas for `RallyProps/C20.lean` (rows, digits, percentage shape, plain vs rich) -/
 
 theorem line_eq_some_iff (plain : Bool) (s : RowSpec) (task : Str) (b c : Scope) (r : Row) :
@@ -1050,5 +1118,41 @@ theorem block_plain (showProc : Bool) (b c : Stats) (blk : Block) :
           | none => rfl
           | some cl =>
             simp only [Except.map, List.map_flatMap, scope_plain]
+
+theorem lookup_mem {α : Type} {k : Str} {l : List (Str × α)} {v : α} (h : lookup k l = some v) : (k, v) ∈ l := by
+  induction l with
+  | nil => simp [lookup] at h
+  | cons a l ih =>
+    obtain ⟨k', v'⟩ := a
+    simp only [lookup] at h
+    split_ifs at h with hk
+    · cases h; subst hk; simp
+    · exact List.mem_cons_of_mem _ (ih h)
+
+theorem lookup_none {α : Type} {k : Str} {l : List (Str × α)} (h : ∀ p ∈ l, p.1 ≠ k) : lookup k l = none := by
+  induction l with
+  | nil => rfl
+  | cons a l ih =>
+    obtain ⟨k', v'⟩ := a
+    simp only [lookup]
+    have : ¬ k = k' := fun e => h (k', v') (by simp) e.symm
+    simp only [this, if_false]
+    exact ih (fun p hp => h p (List.mem_cons_of_mem _ hp))
+
+theorem lookup_of_nodup {α : Type} {l : List (Str × α)} (hnd : (l.map Prod.fst).Nodup) {k : Str} {v : α}
+    (h : (k, v) ∈ l) : lookup k l = some v := by
+  induction l with
+  | nil => cases h
+  | cons a l ih =>
+    obtain ⟨k', v'⟩ := a
+    simp only [List.map_cons, List.nodup_cons] at hnd
+    simp only [lookup]
+    rcases List.mem_cons.mp h with e | hin
+    · cases e; simp
+    · have : ¬ k = k' := by
+        intro e; subst e
+        exact hnd.1 (List.mem_map_of_mem (f := Prod.fst) hin)
+      simp only [this, if_false]
+      exact ih hnd.2 hin
 
 end Compare
